@@ -55,7 +55,15 @@ emit() { # emit <path inside the eino module> <file>
 
 cd "$VERIF" || exit 3
 # the worker that starts this script runs with GOMAXPROCS=1 / GOGC / GOMEMLIMIT: none of that is meant for the build
-if ! env -u GOMAXPROCS -u GOGC -u GOMEMLIMIT go build -race -tags verif -overlay "$work/overlay.json" -o "$work/racebin" "$pkg" 2>&1; then
+cover=()
+if [ -n "${RACEPASS_COVER:-}" ]; then
+  # development aid: statement coverage of eino by the free runs of the scenario bodies (GOCOVERDIR=$RACEPASS_COVER)
+  e=github.com/cloudwego/eino
+  cover=(-cover "-coverpkg=$e/compose,$e/schema,$e/callbacks,$e/internal/...,$e/flow/...,$e/utils/...,$e/components/...,verif/${pkg#./}")
+  mkdir -p "$RACEPASS_COVER"
+  export GOCOVERDIR="$RACEPASS_COVER"
+fi
+if ! env -u GOMAXPROCS -u GOGC -u GOMEMLIMIT go build -race "${cover[@]}" -tags verif -overlay "$work/overlay.json" -o "$work/racebin" "$pkg" 2>&1; then
   echo "racepass.sh: build failed"
   exit 3
 fi
